@@ -15,6 +15,7 @@ PROGRAMS = [
     ('x4_subb', 'var dest 4 d1\nvar src 4 s1\nvar src 4 s2\ninsn subb 2 d1 s1 s2\n', 5, 1),
     ('temp_chain', 'var dest 2 d1\nvar src 1 s1\nvar src 1 s2\nvar temp 2 t1\nvar temp 2 t2\nvar const 2 c1 80\ninsn convubw 0 t1 s1\ninsn convubw 0 t2 s2\ninsn mullw 0 t1 t1 t2\ninsn addw 0 t1 t1 c1\ninsn div255w 0 d1 t1\n', 17, 1),
     ('acc_two', 'var accum 4 a1\nvar accum 2 a2\nvar src 1 s1\nvar src 1 s2\nvar src 2 s3\ninsn accsadubl 0 a1 s1 s2\ninsn accw 0 a2 s3\n', 6, 1),
+    ('acc_four', 'var accum 2 a1\nvar accum 4 a2\nvar accum 4 a3\nvar accum 4 a4\nvar src 1 s1\nvar src 1 s2\nvar src 2 s3\nvar temp 4 t1\ninsn accw 0 a1 s3\ninsn convswl 0 t1 s3\ninsn accl 0 a2 t1\ninsn accsadubl 0 a3 s1 s2\ninsn accl 0 a4 t1\n', 6, 1),
     ('2d_addw', '2d\nvar dest 2 d1\nvar src 2 s1\nvar src 2 s2\ninsn addw 0 d1 s1 s2\n', 5, 2),
     ('shlw_param', 'var dest 2 d1\nvar src 2 s1\nvar param 2 p1\ninsn shlw 0 d1 s1 p1\n', 4, 1),
     ('inplace', 'var dest 1 d1\nvar src 1 s1\ninsn addb 0 d1 d1 s1\n', 17, 1),
@@ -89,6 +90,8 @@ def run(rep, b):
             # executor
             E = ex.alloc('executor', off['sizeof_ex'], init='zero')
             ex.write(E, off['OrcExecutor.n'], n, 4)
+            for k_ in range(4):      # whatever an earlier run (or an uncleared caller-allocated executor) left behind
+                ex.write(E, off['OrcExecutor.accumulators'] + 4 * k_, z3.BitVec('acc_left_over_%d' % k_, 32), 4)
             ex.write(E, off['OrcExecutor.arrays'] + 8 * off['A2'], C, 8)
             ex.write(E, off['OrcExecutor.params'] + 4 * off['A1'], rows, 4)
             arrays, params = {}, {}
